@@ -30,6 +30,13 @@ class MidiFileInputDevice:
         notes = []
         offset = 0
         for event in track:
+            #------------------------------------------------------------------------
+            # Every message in a track carries a delta time, not just note messages.
+            # Advance the clock for all of them, so that notes interleaved with
+            # controllers, pitch-bend or meta events are still placed correctly.
+            #------------------------------------------------------------------------
+            offset += event.time / midi_reader.ticks_per_beat
+
             if event.type == 'note_on' and event.velocity > 0:
                 #------------------------------------------------------------------------
                 # Found a note_on event.
@@ -41,14 +48,12 @@ class MidiFileInputDevice:
                 if event.velocity > 127:
                     event.velocity = 127
 
-                offset += event.time / midi_reader.ticks_per_beat
                 note = MidiNote(event.note, event.velocity, offset)
                 notes.append(note)
             elif event.type == 'note_off' or (event.type == 'note_on' and event.velocity == 0):
                 #------------------------------------------------------------------------
                 # Found a note_off event.
                 #------------------------------------------------------------------------
-                offset += event.time / midi_reader.ticks_per_beat
                 for note in reversed(notes):
                     if note.pitch == event.note and note.duration is None:
                         note.duration = offset - note.location
